@@ -1,3 +1,505 @@
 package main
 
-func cmdMain(args []string) int { return 2 }
+import (
+	"crypto/sha256"
+	"encoding/json"
+	"flag"
+	"fmt"
+	"os"
+	"path/filepath"
+	"regexp"
+	"sort"
+	"strconv"
+	"strings"
+	"time"
+)
+
+// PropSpec: which functions are verified and which obligations are claimed for a property.
+type PropSpec struct {
+	ID          string   `json:"id"`
+	Functions   []string `json:"functions"`
+	Obligations []string `json:"obligations"` // glob patterns over obligation names
+	Assumptions []string `json:"assumptions"`
+	Note        string   `json:"note"`
+	Bounded     []string `json:"bounded,omitempty"` // names of bounded stand-in checks (run by ./check, not govc)
+}
+
+type KnownFinding struct {
+	Property   string `json:"property"`
+	Obligation string `json:"obligation"`
+	ID         string `json:"id"`
+	What       string `json:"what"`
+	// Region: contract expression over the function's pre-state (parameters, old(...)) that
+	// characterises the failing inputs; the obligation is re-asked outside the region.
+	Region string `json:"region"`
+	Status string `json:"status"` // open | fixed
+	Commit string `json:"commit,omitempty"`
+}
+
+type oblReport struct {
+	Name    string  `json:"name"`
+	Kind    string  `json:"kind"`
+	Func    string  `json:"function"`
+	Pos     string  `json:"pos"`
+	Clause  string  `json:"clause,omitempty"`
+	Status  string  `json:"status"`
+	Solver  string  `json:"solver"`
+	Secs    float64 `json:"solver_s"`
+	Queries int     `json:"queries"`
+	Second  string  `json:"second_solver,omitempty"`
+	Cover   string  `json:"cover,omitempty"`
+}
+
+func globMatch(pat, s string) bool {
+	re := "^" + strings.ReplaceAll(regexp.QuoteMeta(pat), `\*`, ".*") + "$"
+	ok, _ := regexp.MatchString(re, s)
+	return ok
+}
+
+func loadJSON(path string, v interface{}) error {
+	data, err := os.ReadFile(path)
+	if err != nil {
+		return err
+	}
+	return json.Unmarshal(data, v)
+}
+
+func cmdMain(args []string) int {
+	switch args[0] {
+	case "check":
+		return cmdCheck(args[1:])
+	case "list":
+		return cmdList(args[1:])
+	}
+	fmt.Fprintln(os.Stderr, "unknown command", args[0])
+	return 2
+}
+
+func cmdList(args []string) int {
+	fs := flag.NewFlagSet("list", flag.ExitOnError)
+	repo := fs.String("repo", "/repo", "repository")
+	fs.Parse(args)
+	e, err := LoadEngine(*repo)
+	if err != nil {
+		fmt.Fprintln(os.Stderr, "load:", err)
+		return 2
+	}
+	for _, k := range sortedKeys(e.db.Funcs) {
+		c := e.db.Funcs[k]
+		fmt.Printf("%-8s %s\n", c.Kind, k)
+	}
+	return 0
+}
+
+type aggObl struct {
+	name string
+	obls []*Obligation
+}
+
+func aggregate(obls []*Obligation) []*aggObl {
+	idx := map[string]*aggObl{}
+	var out []*aggObl
+	for _, o := range obls {
+		a := idx[o.Name]
+		if a == nil {
+			a = &aggObl{name: o.Name}
+			idx[o.Name] = a
+			out = append(out, a)
+		}
+		a.obls = append(a.obls, o)
+	}
+	return out
+}
+
+func (a *aggObl) status() string {
+	st := "proved"
+	for _, o := range a.obls {
+		if o.Status == "failed" {
+			return "failed"
+		}
+		if o.Status != "proved" {
+			st = "unknown"
+		}
+	}
+	return st
+}
+
+func cmdCheck(args []string) int {
+	fs := flag.NewFlagSet("check", flag.ExitOnError)
+	repo := fs.String("repo", "/repo", "repository")
+	vdir := fs.String("verif", "/verif", "verification directory")
+	updateBaseline := fs.Bool("update-baseline", false, "rewrite baseline for this property (only on the unchanged tree)")
+	noEvidence := fs.Bool("no-evidence", false, "do not write evidence (mutant runs)")
+	fs.Parse(args)
+	if fs.NArg() < 2 {
+		fmt.Fprintln(os.Stderr, "usage: govc check [flags] <property> <quick|thorough>")
+		return 2
+	}
+	prop, tier := fs.Arg(0), fs.Arg(1)
+	t0 := time.Now()
+	seed := 0
+	if s := os.Getenv("VERIF_SEED"); s != "" {
+		seed, _ = strconv.Atoi(s)
+	}
+	var specs []PropSpec
+	if err := loadJSON(filepath.Join(*vdir, "props.json"), &specs); err != nil {
+		fmt.Fprintln(os.Stderr, "props.json:", err)
+		return 2
+	}
+	var spec *PropSpec
+	for i := range specs {
+		if specs[i].ID == prop {
+			spec = &specs[i]
+		}
+	}
+	if spec == nil {
+		fmt.Fprintln(os.Stderr, "property not claimed:", prop)
+		return 2
+	}
+	var findings []KnownFinding
+	loadJSON(filepath.Join(*vdir, "KNOWN_FINDINGS.json"), &findings)
+	baseline := map[string][]string{}
+	loadJSON(filepath.Join(*vdir, "baseline", "obligations.json"), &baseline)
+
+	e, err := LoadEngine(*repo)
+	if err != nil {
+		fmt.Fprintln(os.Stderr, "ENGINE-FAULT load:", err)
+		return 2
+	}
+	tLoad := time.Since(t0).Seconds()
+	dir, _ := os.MkdirTemp("/var/tmp", "govc-")
+	defer os.RemoveAll(dir)
+	timeout := 10
+	if tier == "thorough" {
+		timeout = 60
+	}
+	engineFault := false
+	var all []*Obligation
+	var funcsUnder []map[string]string
+	trusted := map[string]bool{}
+	assumed := map[string]bool{}
+	var abstracted []string
+	for _, k := range spec.Functions {
+		res := e.VerifyFunc(k)
+		if res.Err != "" {
+			fmt.Printf("UNDECIDED %s: %s\n", k, res.Err)
+			engineFault = true
+			continue
+		}
+		h := ""
+		if fi := e.funcs[k]; fi != nil && fi.Decl != nil {
+			sum := sha256.Sum256([]byte(e.srcText(fi.Decl)))
+			h = fmt.Sprintf("%x", sum[:8])
+		}
+		funcsUnder = append(funcsUnder, map[string]string{"function": k, "source_sha256_8": h, "queries": fmt.Sprint(len(res.Obls))})
+		for _, t := range res.Trusted {
+			trusted[t] = true
+		}
+		for _, a := range res.Assumed {
+			assumed[a] = true
+		}
+		for _, a := range res.Abstracted {
+			abstracted = append(abstracted, k+": "+a)
+		}
+		all = append(all, res.Obls...)
+	}
+	// select claimed obligations
+	var claimed []*Obligation
+	for _, o := range all {
+		for _, p := range spec.Obligations {
+			if globMatch(p, o.Name) {
+				claimed = append(claimed, o)
+				break
+			}
+		}
+	}
+	// known-finding regions: split obligations
+	regionOf := map[string][]KnownFinding{}
+	for _, f := range findings {
+		if f.Property == prop && f.Status == "open" {
+			regionOf[f.Obligation] = append(regionOf[f.Obligation], f)
+		}
+	}
+	var extra []*Obligation
+	for _, o := range claimed {
+		if fsn, ok := regionOf[o.Name]; ok {
+			for _, f := range fsn {
+				r, err := e.regionTerm(o, f.Region)
+				if err != nil {
+					fmt.Printf("UNDECIDED known-finding region for %s: %v\n", o.Name, err)
+					engineFault = true
+					continue
+				}
+				// obligation outside the region
+				o.Extra = append(o.Extra, Not(r))
+				// is the region still a counterexample?
+				in := *o
+				in.Name = o.Name + "@" + f.ID
+				in.Kind = "known-finding-region"
+				in.Extra = append(append([]string(nil), o.Extra[:len(o.Extra)-1]...), r)
+				extra = append(extra, &in)
+			}
+		}
+	}
+	Discharge(claimed, dir, timeout, 16, tier == "thorough")
+	Discharge(extra, dir, timeout, 16, false)
+	if tier == "thorough" {
+		secondSolver(claimed, dir, timeout)
+	}
+	aggs := aggregate(claimed)
+	// baseline comparison
+	base := map[string]bool{}
+	for _, n := range baseline[prop] {
+		base[n] = true
+	}
+	if *updateBaseline {
+		var names []string
+		for _, a := range aggs {
+			if a.status() == "proved" {
+				names = append(names, a.name)
+			}
+		}
+		sort.Strings(names)
+		baseline[prop] = names
+		data, _ := json.MarshalIndent(baseline, "", " ")
+		os.MkdirAll(filepath.Join(*vdir, "baseline"), 0o755)
+		os.WriteFile(filepath.Join(*vdir, "baseline", "obligations.json"), data, 0o644)
+		for _, n := range names {
+			base[n] = true
+		}
+	}
+	seen := map[string]bool{}
+	violations := 0
+	undecided := 0
+	var reports []oblReport
+	var samples []map[string]string
+	os.MkdirAll(filepath.Join(*vdir, "replays"), 0o755)
+	for _, a := range aggs {
+		seen[a.name] = true
+		st := a.status()
+		o0 := a.obls[0]
+		secs := 0.0
+		solver := ""
+		second := ""
+		cover := ""
+		for _, o := range a.obls {
+			secs += o.Time
+			if solver == "" || o.Status != "proved" {
+				solver = o.Solver
+			}
+			if o.Second != "" {
+				second = o.Second
+			}
+			if o.Cover != "" && (cover == "" || cover == "sat") {
+				cover = o.Cover
+			}
+		}
+		reports = append(reports, oblReport{Name: a.name, Kind: o0.Kind, Func: o0.Func, Pos: o0.Pos, Clause: o0.Clause, Status: st, Solver: solver, Secs: secs, Queries: len(a.obls), Second: second, Cover: cover})
+		if len(samples) < 3 && st == "proved" && o0.Goal != "true" && o0.Kind != "vacuity" {
+			q := o0.smt(true, true)
+			if len(q) > 6000 {
+				q = q[:6000] + "\n...[truncated]"
+			}
+			samples = append(samples, map[string]string{"obligation": a.name, "clause": o0.Clause, "smtlib": q})
+		}
+		switch {
+		case st == "proved":
+		case st == "failed" || base[a.name]:
+			// violation: counterexample, or an obligation that discharged on the unchanged tree no longer does
+			violations++
+			var bad *Obligation
+			for _, o := range a.obls {
+				if o.Status != "proved" {
+					bad = o
+					break
+				}
+			}
+			rp := writeReplay(*vdir, prop, a.name, bad, *repo)
+			suffix := ""
+			if !rp.confirmed {
+				suffix = " no-failing-input-found"
+			}
+			fmt.Printf("VIOLATION property=%s replay=%s obligation=%s at=%s status=%s%s\n", prop, rp.path, a.name, bad.Pos, bad.Status, suffix)
+		default:
+			undecided++
+			fmt.Printf("UNDECIDED obligation %s (%s) is not discharged and is not in the baseline\n", a.name, st)
+		}
+	}
+	// vacuity: every baseline obligation must still be generated
+	var missing []string
+	for n := range base {
+		if !seen[n] {
+			missing = append(missing, n)
+		}
+	}
+	sort.Strings(missing)
+	for _, n := range missing {
+		fmt.Printf("UNBOUND baseline obligation %s was not generated (function or anchor missing)\n", n)
+		engineFault = true
+	}
+	if len(aggs) == 0 {
+		fmt.Println("ENGINE-FAULT no obligations generated")
+		engineFault = true
+	}
+	// known findings
+	for _, x := range extra {
+		fid := x.Name[strings.LastIndex(x.Name, "@")+1:]
+		for _, f := range findings {
+			if f.ID == fid && f.Property == prop {
+				if x.Status == "failed" || x.Status == "unknown" {
+					fmt.Printf("KNOWN-FINDING: property=%s %s [%s] %s\n", prop, f.ID, f.Obligation, f.What)
+				}
+			}
+		}
+	}
+	wall := time.Since(t0).Seconds()
+	discharged := 0
+	for _, r := range reports {
+		if r.Status == "proved" {
+			discharged++
+		}
+	}
+	if !*noEvidence {
+		var tb []string
+		for _, t := range sortedKeys(trusted) {
+			tb = append(tb, "assumed contract: "+t)
+		}
+		for _, t := range sortedKeys(assumed) {
+			tb = append(tb, "assumption: "+t)
+		}
+		for _, a := range abstracted {
+			tb = append(tb, "abstracted construct: "+a)
+		}
+		tb = append(tb, spec.Assumptions...)
+		tb = append(tb, "govc (this VC generator), go/types, z3 4.8.12 / z3 5.1.0 / cvc5 1.0.3, Go memory model for sync.Mutex")
+		ev := map[string]interface{}{
+			"property_id": prop,
+			"tier":        tier,
+			"seed":        seed,
+			"level":       "proof",
+			"coverage": map[string]interface{}{
+				"obligations":              len(reports),
+				"discharged":               discharged,
+				"queries":                  len(claimed),
+				"checker_cmd":              fmt.Sprintf("./check %s %s  (govc check %s %s; per obligation: z3-new -T:%d, then race z3 4.8.12 / z3 5.1.0 / cvc5 1.0.3 --enum-inst)", prop, tier, prop, tier, timeout),
+				"trusted_base":             tb,
+				"functions_under_contract": funcsUnder,
+				"obligation_list":          reports,
+				"samples":                  samples,
+				"translation_drops":        translationDrops,
+				"load_s":                   tLoad,
+				"contract_file":            "/repo/contracts_verif.go",
+				"undecided":                undecided,
+				"explanation":              spec.Note,
+			},
+			"assumptions": append(append([]string{}, spec.Assumptions...), sortedKeys(assumed)...),
+			"wall_s":      wall,
+			"violations":  violations,
+		}
+		data, _ := json.MarshalIndent(ev, "", " ")
+		os.MkdirAll(filepath.Join(*vdir, "evidence"), 0o755)
+		os.WriteFile(filepath.Join(*vdir, "evidence", prop+".json"), data, 0o644)
+	}
+	fmt.Printf("%s %s: %d obligations, %d discharged, %d violations, %d undecided, %.1fs\n", prop, tier, len(reports), discharged, violations, undecided, wall)
+	if violations > 0 {
+		return 1
+	}
+	if engineFault || undecided > 0 {
+		return 2
+	}
+	return 0
+}
+
+var translationDrops = []string{
+	"logger calls other than Fatal/Fatalf are skipped (arguments still evaluated); Fatal* is abort (obligation: unreachable)",
+	"defer mu.Unlock()/wg.Done() are executed at every return; other defers run at return in LIFO order",
+	"go f(args): no execution; f is verified separately from an arbitrary invariant-satisfying state",
+	"wall-clock time is a ghost monotone integer",
+	"bodies of functions outside /repo are never read (assumed contract or unconstrained result)",
+	"slices are values (array, offset, length): capacity and backing-array aliasing are not modelled",
+	"strings, byte slices, errors, channels, interfaces are uninterpreted identities",
+	"integer additions/multiplications are assumed not to overflow (A-NOOVF); unsigned subtraction and conversions are exact",
+}
+
+// secondSolver re-checks proved obligations with a different solver (thorough tier).
+func secondSolver(obls []*Obligation, dir string, timeoutS int) {
+	sem := make(chan struct{}, 16)
+	done := make(chan struct{})
+	n := 0
+	for _, o := range obls {
+		if o.Status != "proved" || o.Solver == "trivial" || o.Kind == "vacuity" {
+			continue
+		}
+		n++
+		o := o
+		go func() {
+			sem <- struct{}{}
+			defer func() { <-sem; done <- struct{}{} }()
+			q := "(set-option :produce-models true)\n(set-logic ALL)\n" + o.smt(true, true)
+			file := filepath.Join(dir, fmt.Sprintf("second-%p.smt2", o))
+			os.WriteFile(file, []byte(q), 0o644)
+			for _, sp := range solvers {
+				if sp.name == o.Solver {
+					continue
+				}
+				r := runSolver(nil2ctx(), sp, file, timeoutS)
+				if r.status == "unsat" {
+					o.Second = sp.name
+					return
+				}
+				if r.status == "sat" {
+					o.Second = "DISAGREE:" + sp.name
+					return
+				}
+			}
+			o.Second = "none"
+		}()
+	}
+	for i := 0; i < n; i++ {
+		<-done
+	}
+}
+
+type replayResult struct {
+	path      string
+	confirmed bool
+}
+
+func writeReplay(vdir, prop, name string, o *Obligation, repo string) replayResult {
+	path := filepath.Join(vdir, "replays", prop+"-"+sanitize(name)+".json")
+	rp := map[string]interface{}{
+		"property":      prop,
+		"obligation":    name,
+		"kind":          o.Kind,
+		"function":      o.Func,
+		"position":      o.Pos,
+		"clause":        o.Clause,
+		"status":        o.Status,
+		"solver":        o.Solver,
+		"solver_output": o.Output,
+		"smtlib":        o.smt(true, true),
+		"repo":          repo,
+	}
+	confirmed := false
+	if w := extractWitness(o); w != nil {
+		rp["witness"] = w
+		res := tryReplay(o, w, repo)
+		rp["replay"] = res
+		if c, ok := res["confirmed"].(bool); ok && c {
+			confirmed = true
+		}
+	} else {
+		rp["replay"] = map[string]interface{}{"confirmed": false, "reason": "the solver returned no model for this obligation (" + o.Status + ")"}
+	}
+	data, _ := json.MarshalIndent(rp, "", " ")
+	os.WriteFile(path, data, 0o644)
+	return replayResult{path, confirmed}
+}
+
+// regionTerm evaluates a known-finding region (contract expression over the pre-state) for o's function.
+func (e *Engine) regionTerm(o *Obligation, region string) (string, error) {
+	if o.vc.regionEval == nil {
+		return "", fmt.Errorf("no region evaluator")
+	}
+	return o.vc.regionEval(region)
+}
